@@ -369,6 +369,7 @@ func cmdRun(args []string) int {
 	scale := fs.Float64("scale", 1, "scale the number of cases (self-tests only)")
 	noEvidence := fs.Bool("no-evidence", false, "do not write the evidence file (self-tests)")
 	digestOnly := fs.Bool("digest", false, "print the run digest line")
+	noDetSlice := fs.Bool("no-determinism-slice", false, "skip the determinism slice")
 	gomaxprocs := fs.Int("gomaxprocs", 2, "GOMAXPROCS of each worker")
 	fs.Parse(args)
 	p := props.All[*propID]
@@ -498,6 +499,56 @@ func cmdRun(args []string) int {
 	if *scale < 1 {
 		casesTotal = casesDone
 	}
+	// Determinism slice: the first cases of the batch are run twice more, at
+	// other worker counts and GOMAXPROCS, and their digests must agree. A
+	// divergence is trouble (a forgotten source of nondeterminism in the
+	// harness or in the tree), never a verdict; the full self-test is
+	// `./check selftest determinism`.
+	detNote := ""
+	if !*noDetSlice && len(viols) == 0 {
+		nSlice := 120
+		if *tier == "thorough" {
+			nSlice = 600
+		}
+		if nSlice > batches[0].hi {
+			nSlice = batches[0].hi
+		}
+		var digests []uint64
+		for _, cfg := range [][2]int{{3, 1}, {5, 4}} {
+			var d uint64
+			var wg sync.WaitGroup
+			var mu sync.Mutex
+			for w := 0; w < cfg[0]; w++ {
+				w := w
+				wg.Add(1)
+				go func() {
+					defer wg.Done()
+					label := fmt.Sprintf("d%d", cfg[0])
+					cmd := exec.Command(os.Args[0], "worker", "-prop", p.ID, "-tier", *tier, "-seed", strconv.FormatUint(*seed, 10),
+						"-w", strconv.Itoa(w), "-n", strconv.Itoa(cfg[0]), "-dir", dir, "-repo", *repo, "-cap", capDur.String(),
+						"-lo", "0", "-hi", strconv.Itoa(nSlice), "-batch", label)
+					cmd.Env = append(os.Environ(), "GOMAXPROCS="+strconv.Itoa(cfg[1]))
+					cmd.Run()
+					if b, err := os.ReadFile(filepath.Join(dir, fmt.Sprintf("worker-%s-%d.json", label, w))); err == nil {
+						var r workerResult
+						if json.Unmarshal(b, &r) == nil {
+							mu.Lock()
+							d += r.Digest
+							mu.Unlock()
+						}
+					}
+				}()
+			}
+			wg.Wait()
+			digests = append(digests, d)
+		}
+		if digests[0] == digests[1] {
+			detNote = fmt.Sprintf("first %d cases run twice more, with 3 workers at GOMAXPROCS=1 and 5 workers at GOMAXPROCS=4: digests equal (%016x)", nSlice, digests[0])
+		} else {
+			detNote = fmt.Sprintf("DIVERGED on the first %d cases: %016x vs %016x", nSlice, digests[0], digests[1])
+			trouble = append(trouble, "determinism slice "+detNote)
+		}
+	}
 	wall := time.Since(start).Seconds()
 
 	// one report per invariant: the shortest tape
@@ -584,6 +635,9 @@ func cmdRun(args []string) int {
 		}
 		if raceNote != "" {
 			cov["race_arm"] = raceNote
+		}
+		if detNote != "" {
+			cov["determinism_slice"] = detNote
 		}
 		if len(stats.Samples) == 0 {
 			cov["samples"] = []interface{}{"(no sample recorded)"}
